@@ -509,3 +509,106 @@ def argmax_rule(chk, prog, funcs):
                 chk.violation(Finding('OF.argmax', rel(f.file), name, 'argmax:' + best_idx['name'], f.unit.where(n),
                                       '%s: arg-%s search over `%s`: %s; an object whose scores all lie on the other side keeps the initial index'
                                       % (name, 'max' if maximise else 'min', f.unit.text(cand)[:50], why)))
+
+
+def per_index_values(chk, prog, funcs):
+    """a value stored once per iteration of a counting loop into a result container (append, or cell indexed by the loop variable)
+    must depend on the loop variable: a loop-invariant (stale) value gives every class / row the same entry.
+    Literal constants are exempt (explicit constant fill)."""
+    R = chk.rule('DF.per-index', 'inside a counting loop every non-constant value appended to, or stored at the loop index of, a result container '
+                 'depends on the loop variable (directly, through a variable assigned in the same iteration, or through a container filled in '
+                 'the same iteration from loop-indexed data)')
+    APPENDS = {'DVectorAppend': (0, 1), 'UIVectorAppend': (0, 1), 'IVectorAppend': (0, 1), 'MatrixAppendRow': (0, 1), 'MatrixAppendCol': (0, 1),
+               'MatrixAppendUIRow': (0, 1), 'MatrixAppendUICol': (0, 1), 'StrVectorAppend': (0, 1), 'DVectorListAppend': (0, 1), 'TensorAppendMatrix': (0, 1)}
+    n_inst = 0
+    for name in funcs:
+        f = prog.funcs.get(name)
+        if f is None or f.body is None:
+            chk.broke('%s not found' % name)
+            continue
+        for loop in walk(f.body):
+            if loop.get('kind') != 'ForStmt':
+                continue
+            ind = flow.induction(loop)
+            if ind is None:
+                continue
+            var = ind['var'].split('#')[0]
+            init, cond, inc, body = flow.for_parts(loop)
+            # dependence closure inside the body
+            dep = {var}
+            changed = True
+            assigns = []
+            calls = []
+            for x in walk(body):
+                k = x.get('kind')
+                if k in ('BinaryOperator', 'CompoundAssignOperator') and (x.get('opcode') or '').endswith('=') and x.get('opcode') not in ('==', '!=', '<=', '>='):
+                    assigns.append(x)
+                elif k == 'VarDecl' and kids(x):
+                    assigns.append(x)
+                elif k == 'CallExpr':
+                    calls.append(x)
+
+            def names(e):
+                return {y['referencedDecl'].get('name') for y in walk(e) if y.get('kind') == 'DeclRefExpr'}
+
+            def base_name(e):
+                e = strip(e)
+                while e.get('kind') in ('ArraySubscriptExpr', 'MemberExpr', 'UnaryOperator', 'ParenExpr'):
+                    e = strip(kids(e)[0])
+                return e['referencedDecl'].get('name') if e.get('kind') == 'DeclRefExpr' else None
+            pm = flow.parent_map(body)
+
+            def control_names(node):
+                out = set()
+                for anc in flow.ancestors(pm, node):
+                    if anc.get('kind') == 'IfStmt':
+                        out |= names(kids(anc)[0])
+                    elif anc.get('kind') in ('ForStmt', 'WhileStmt'):
+                        for c_ in kids(anc)[:-1]:
+                            if c_.get('kind'):
+                                out |= names(c_)
+                return out
+            while changed:
+                changed = False
+                for a in assigns:
+                    if a.get('kind') == 'VarDecl':
+                        tgt, src = a.get('name'), names(kids(a)[-1]) | control_names(a)
+                    else:
+                        tgt, src = base_name(kids(a)[0]), names(kids(a)[1]) | (names(kids(a)[0]) - {base_name(kids(a)[0])}) | control_names(a)
+                    if tgt and tgt not in dep and src & dep:
+                        dep.add(tgt)
+                        changed = True
+                for c in calls:
+                    args = call_args(c)
+                    if any(names(x) & dep for x in args):
+                        # every pointer argument may be filled from the loop-indexed ones
+                        for x in args:
+                            q = fe.qual(strip(x, casts=False))
+                            bn = base_name(x)
+                            if bn and ('*' in q or strip(x).get('opcode') == '&') and bn not in dep:
+                                dep.add(bn)
+                                changed = True
+            # stores per iteration
+            for c in calls:
+                cn = callee_name(c)
+                if cn not in APPENDS:
+                    continue
+                # only appends executed once per iteration of THIS loop (not inside a nested loop)
+                if any(c in list(walk(l2)) for l2 in walk(body) if l2.get('kind') == 'ForStmt'):
+                    continue
+                args = call_args(c)
+                val = args[APPENDS[cn][1]]
+                v0 = strip(val)
+                if v0.get('kind') in ('IntegerLiteral', 'FloatingLiteral') or (v0.get('kind') == 'UnaryOperator' and strip(kids(v0)[0]).get('kind', '').endswith('Literal')):
+                    continue
+                n_inst += 1
+                desc = '%s %s: %s' % (f.unit.where(c), name, f.unit.text(c)[:90])
+                if names(val) & dep:
+                    chk.instance(R, desc + ': depends on `%s`' % var)
+                else:
+                    chk.instance(R, desc + ': loop-invariant', 'refuted')
+                    chk.violation(Finding('DF.per-index', rel(f.file), name, 'invariant:%s' % exprs.text_key(args[0]), f.unit.where(c),
+                                          '%s: `%s` appends `%s` once per iteration of the loop over `%s`, but that value does not depend on `%s` '
+                                          '(its variables %s are not assigned in the loop from loop-indexed data): every entry receives the same, '
+                                          'stale value' % (name, f.unit.text(c)[:80], f.unit.text(val)[:60], var, var, sorted(names(val)))))
+    return n_inst
